@@ -147,6 +147,16 @@ def build_wf(spec):
 
 
 def build_pulse(spec):
+    if spec.get("via"):
+        # the documented shorthand constructors give the same pulse as Pulse(...)
+        a_const, d_const = spec["amp"]["k"] == "const", spec["det"]["k"] == "const"
+        post = spec.get("post", 0.0)
+        if a_const and d_const:
+            return Pulse.ConstantPulse(spec["amp"]["d"], spec["amp"]["v"], spec["det"]["v"], spec["phase"], post)
+        if a_const:
+            return Pulse.ConstantAmplitude(spec["amp"]["v"], build_wf(spec["det"]), spec["phase"], post)
+        if d_const:
+            return Pulse.ConstantDetuning(build_wf(spec["amp"]), spec["det"]["v"], spec["phase"], post)
     return Pulse(
         build_wf(spec["amp"]),
         build_wf(spec["det"]),
